@@ -199,6 +199,22 @@ def call_native(interp, st, f, args, kwargs, node=None):
             if isinstance(slf, (str, bytes, int, tuple)):
                 yield from call_method(interp, st, lift(slf), f.__name__, args, kwargs, node)
                 return
+            if (isinstance(slf, dict) and f.__name__ == 'get' and len(args) in (1, 2) and not kwargs and slf
+                    and isinstance(args[0], VStr) and all(type(k) is str for k in slf)
+                    and all(type(v) is int for v in slf.values())
+                    and (len(args) == 1 or (isinstance(args[1], VInt) and args[1].concrete) or args[1] is VNone)):
+                # constant str -> int table looked up with a symbolic key: an if-then-else chain over the table's keys
+                key = args[0].term()
+                hit = z3.Or([key == mk_str(k) for k in slf])
+                val = z3.IntVal(args[1].v) if len(args) == 2 and args[1] is not VNone else z3.IntVal(-1)
+                for k, v in slf.items():
+                    val = z3.If(key == mk_str(k), z3.IntVal(v), val)
+                if len(args) == 2 and args[1] is not VNone:
+                    yield st, VInt(val)
+                    return
+                for s1, a in interp.alts(st, [(hit, VInt(val)), (z3.Not(hit), VNone)]):
+                    yield s1, a
+                return
             raise Unsupported(f"native method {f!r} with symbolic arguments", node)
         if native_is_pure(f) or isinstance(slf, (dict, list, set)) and f.__name__ in (
                 'get', 'keys', 'values', 'items', 'index', 'count', 'copy', '__contains__', '__getitem__'):
